@@ -390,6 +390,12 @@ def run(ctx):
             if outer and rdepth.get(k_, 0) <= 1:
                 agg.setdefault(('presence', 'the writer emits %s only when %s is present too, while the reader accepts it independently: a value that carries %s without %s loses it on encoding' % (
                     k_, '/'.join(c[1] for c in outer), k_, '/'.join(c[1] for c in outer)), 'nested under ' + '/'.join(c[1] for c in outer) + ':' + str(k_)), []).append(VERSIONS[-1])
+        # a presence test guards the write of the field it tests: `if self._a: self._b.write(...)` drops b when a is absent and fails when only a is set
+        for e in W.events:
+            cs_ = [c_ for c_ in (e.get('conds') or []) if c_[0] == 'pres']
+            if cs_ and str(e.get('recv') or '').startswith('self.') and cs_[-1][1] != e['ident']:
+                agg.setdefault(('presence', 'the writer emits field %s under a presence test of the other field %s: a value that carries %s without %s loses it on encoding, and one that carries %s without %s cannot be encoded' % (
+                    e['ident'], cs_[-1][1], e['ident'], cs_[-1][1], cs_[-1][1], e['ident']), 'written under the presence of another field:%s<-%s' % (e['ident'], cs_[-1][1])), []).append(VERSIONS[-1])
         wdepth = {e['tag'] or e['ident']: len(e.get('conds') or []) for e in W.events}
         for e in R.events:
             k_ = e['tag'] or e['ident']
